@@ -225,12 +225,17 @@ SKIP = _Skip()
 
 
 def _chunks(it, n):
+    """Small chunks first (so that small layers spread over all workers), growing to n."""
     it = iter(it)
+    size, k = 4, 0
     while True:
-        c = list(itertools.islice(it, n))
+        c = list(itertools.islice(it, min(size, n)))
         if not c:
             return
         yield c
+        k += 1
+        if k % (NPROC * 2) == 0 and size < n:
+            size *= 2
 
 
 def explore(prop, tier, seed, only_policies=None, only_layers=None, budget_s=None):
